@@ -50,7 +50,7 @@ structure Hint where
   values : List Key
   /-- the leaf the hint was made from (ghost: lets theorems and label re-attachment refer to it) -/
   leaf : Leaf
-  deriving Repr, Inhabited
+  deriving DecidableEq, Repr, Inhabited
 
 inductive Plan where
   | bypass
